@@ -56,6 +56,9 @@ DenotationTotal == done =>
     /\ Cardinality(DenHolds(f, l)) = Cardinality({ k \in DOMAIN objs : objs[k].id = LnObj })
     /\ \A h \in DenHolds(f, l) : h.n > 0
 
+(* the one-pass start times used by the validators are TStart *)
+StartsAgree == done => LET tl == TempoList(File) IN Len(Starts(tl, 0)) = Len(tl) /\ \A k \in DOMAIN tl : Starts(tl, 0)[k] = TStart(tl, 0, k)
+
 RECURSIVE HSum(_)
 HSum(s) == IF s = <<>> THEN 0 ELSE s[1].col * 3 + s[1].pos[1] * 5 + s[1].pos[2] * 7 + s[1].pos[3] * 11 + HSum(Tail(s))
 EmitScn == (Emit /\ done /\ (HSum(objs) + Len(tempo)) % EmitMod = 0) =>
